@@ -1,1 +1,23 @@
-From QV Require Import Base Fields SrcFacts Msg SrcDecisions Sim Prober Hostname Provider ProviderSpec.
+(* Properties_C10.v — a provider never speaks for names it has not verified. *)
+From QV Require Import Base Fields SrcFacts Msg SrcDecisions Sim Prober Hostname Provider ProviderSpec ProviderProofs.
+Local Open Scope Z_scope.
+
+(* In every state of the provider / hostname / prober composite reachable by ANY sequence of handler invocations
+   (messages of every kind, any of the timers firing at any instant - early, on time or late -, update, destroy),
+   every SRV record in every response the composite sends (announcement, answer or goodbye) has a target that is
+   empty or one of the names under which the hostname object actually became registered (the ghost list G grows
+   exactly when the registration timer handler sets the registered flag).  Never an unverified candidate. *)
+Theorem C10_srv_targets_registered G c now ev :
+  creachable G c -> all_ok (ghost_after G c ev) (snd (comp_handle now c ev)).
+Proof. intro H. exact (proj2 (comp_step_ok G now c ev (creachable_PInv G c H))). Qed.
+Print Assumptions C10_srv_targets_registered.
+
+(* no answer before confirmation *)
+Theorem C10_silent_until_confirmed p m : pv_confirmed p = false -> prov_on_message p m = [].
+Proof. intro H. rewrite prov_reply_spec. unfold spec_prov_reply. rewrite H. reflexivity. Qed.
+Print Assumptions C10_silent_until_confirmed.
+
+(* PARTIAL: the clauses "no response before (registered, updated, probe completed)", "nonzero-TTL records carry the
+   latest confirmed instance name" and "every goodbye names records announced before" are enforced on every run of
+   the check by the extracted acceptor mon_provider (codes 10, 11, 12, 14) on the implementation's and the model's
+   traces; their coupling proof (as done for C07) is not yet written. *)
